@@ -190,6 +190,8 @@ ANNOUNCE_TX1 = H(A, 'c15_send_announce_one_tlv', tiers=TH, bounded='provider off
 ANNOUNCE_RX_PARENT = H(B, 'c11_announce_from_parent_updates_data_sets', functions=['statime/src/port/bmca.rs: Port::handle_announce', 'statime/src/datastructures/messages/announce.rs: AnnounceMessage::time_properties', 'statime/src/bmc/bmca.rs: Bmca::register_announce_message'])
 ANNOUNCE_RX_ACCEPT = H(B, 'c06_announce_accepted_effects')
 ANNOUNCE_RX_REJECT = H(B, 'c07_announce_unacceptable_or_own_is_frame')
+ANNOUNCE_LOCKS = H(A, 'c17_send_announce_lock_discipline_with_tlv', bounded='provider offers one TLV with a 4-octet value; path trace list <= 1 entry; port in MASTER state',
+                   functions=['statime/src/port/master.rs: Port::send_announce'])
 ANNOUNCE_TXP = H(A, 'c15_send_announce_own_path_trace', bounded='no forwarded TLV; path trace list <= 2 entries',
                  functions=['statime/src/port/master.rs: Port::send_announce', 'statime/src/datastructures/messages/mod.rs: Message::announce'])
 ANNOUNCE_TX2 = H(A, 'c15_send_announce_two_tlvs', bounded='provider offers at most K = 2 TLVs per call; path trace off',
@@ -201,7 +203,8 @@ PATH_TRACE = H(B, 'c15_path_trace_store_and_loop_discard', tiers=TH,
 RECEIPT_TIMER = H(B, 'c08_announce_receipt_timeout', functions=['statime/src/port/mod.rs: Port::{handle_announce_receipt_timer, set_forced_port_state}'])
 APPLY = H(B, 'c05_apply_decision_port_state_and_data_sets', functions=['statime/src/port/bmca.rs: Port::{set_recommended_state, set_recommended_port_state}'])
 COMPARE = [
-    H(C, 'c05_compare_matches_figures_34_35', functions=['statime/src/bmc/dataset_comparison.rs: ComparisonDataset::{compare, compare_same_identity, compare_different_identity, from_own_data, from_announce_message}, DatasetOrdering::as_ordering']),
+    H(C, 'c05_compare_matches_figures_34_35', functions=['statime/src/bmc/dataset_comparison.rs: ComparisonDataset::{compare, compare_same_identity, compare_different_identity}, DatasetOrdering::as_ordering']),
+    H(C, 'c05_comparison_dataset_constructors', functions=['statime/src/bmc/dataset_comparison.rs: ComparisonDataset::{from_own_data, from_announce_message}']),
     H(C, 'c05_compare_is_transitive_on_consistent_sets'),
     H(Q, 'c05_state_decision_matches_figure_33', functions=['statime/src/bmc/bmca.rs: Bmca::{calculate_recommended_state, calculate_recommended_state_low_class, calculate_recommended_state_high_class, compare_global_and_port, compare_d0_best}']),
     H(Q, 'c05_find_best_is_a_maximum', tiers=TH, bounded='two candidates (more candidates: paper step from antisymmetry + transitivity)', functions=['statime/src/bmc/bmca.rs: Bmca::find_best_announce_message, BestAnnounceMessage::compare']),
@@ -255,6 +258,15 @@ INSTANCE = [
 ]
 SERDE = H('time::duration::verif_bits::serde_contract::', 'c19_duration_serializes_its_full_bit_pattern', functions=['statime/src/time/duration.rs: impl serde::Serialize for Duration', 'statime/src/datastructures/common/time_interval.rs: impl serde::Serialize for TimeInterval'])
 PORT_DS = H(B, 'c19_port_ds_matches_port', functions=['statime/src/port/mod.rs: Port::{port_ds, is_steering, is_master}'])
+INSTANCE_BMCA = [
+    H(B, 'c05_instance_bmca_visits_every_port', bounded='instance with two ports (the loops of PtpInstanceState::bmca are per-port and uniform)',
+      functions=['statime/src/ptp_instance.rs: PtpInstance::bmca, PtpInstanceState::bmca']),
+    H(B, 'c05_port_erbest_accessors', functions=['statime/src/port/bmca.rs: Port::{calculate_best_local_announce_message, best_local_announce_message_for_bmca, best_local_announce_message_for_state}']),
+    H(B, 'c06_step_announce_age_ages_records_and_marker', functions=['statime/src/port/bmca.rs: Port::step_announce_age']),
+    H(Q, 'c06_bmca_step_age_hands_step_to_list', functions=['statime/src/bmc/bmca.rs: Bmca::step_age']),
+]
+START_END = H(B, 'c03_start_end_bmca_is_identity', functions=['statime/src/port/mod.rs: Port::{start_bmca, end_bmca}'])
+SEQ_GEN = H(SEQ, 'c10_sequence_id_generate_is_plus_one_mod_2_16', functions=['statime/src/port/sequence_id.rs: SequenceIdGenerator::{new, generate}'])
 MISC_PORT = [
     H(B, 'c03_filter_update_timer', functions=['statime/src/port/mod.rs: Port::handle_filter_update_timer']),
     H(B, 'c03_start_end_bmca_is_identity', tiers=TH, functions=['statime/src/port/mod.rs: Port::{start_bmca, end_bmca}']),
@@ -296,7 +308,7 @@ PROPS = {
             H(S, 'c03_finding_sync_correction_exceeds_receive_time', finding='F-C03-wire-time-underflow'),
             H(S, 'c03_finding_follow_up_correction_below_zero', finding='F-C03-wire-time-underflow-follow-up', tiers=TH),
             H(F, 'c06_register_preserves_valid__empty', bounded=_fm_bound), H(F, 'c06_register_at_capacity', bounded='concrete instance: 8 records, fixed newcomer identity'),
-        ] + MISC_PORT[:1] + [th(h) for h in (C09_H + C14_H + C10_H + [PATH_TRACE, NOT_SLAVE] + DISPATCH + MISC_PORT[1:] + FOREIGN[:-1] + INSTANCE + COMPARE)
+        ] + MISC_PORT[:1] + [th(h) for h in (C09_H + C14_H + C10_H + [PATH_TRACE, NOT_SLAVE] + DISPATCH + MISC_PORT[1:] + FOREIGN[:-1] + INSTANCE + INSTANCE_BMCA + COMPARE)
                             if h['name'] not in (S + 'c09_sync_one_step', S + 'c09_delay_resp', S + 'c14_pdelay_timestamp', M + 'c10_delay_resp_for_delay_req', M + 'c10_follow_up_for_sync_timestamp', F + 'c06_register_preserves_valid__empty', F + 'c06_register_at_capacity')],
         assumptions=PORT_ASSUME + [
             'C03 is the conjunction of "returns normally and re-establishes the invariant" over every contracted operation: CBMC checks arithmetic overflow (irrespective of build profile), shift overflow, index/slice bounds, unwrap/expect, assert!/debug_assert!/unreachable!, ArrayVec capacity panics, division by zero in every harness; by induction over calls this covers every call order from states satisfying the invariant',
@@ -311,13 +323,13 @@ PROPS = {
     ),
     'C05': dict(
         verus=[],
-        kani=COMPARE + [APPLY],
+        kani=COMPARE + [APPLY] + INSTANCE_BMCA[:2],
         assumptions=['the composition over the loops of PtpInstanceState::bmca (Ebest = max over ports, per-port decision, application) is a paper step over the three machine-checked contracts compare / decide / apply; order independence follows from antisymmetry + transitivity on consistent data sets',
                      'consistency precondition for transitivity: equal grandmasterIdentity => equal grandmaster attributes, same receiver clock, sender != receiver (without it the IEEE comparison itself is cyclic)'] + PORT_ASSUME[:1],
     ),
     'C06': dict(
         verus=[],
-        kani=FOREIGN + [ANNOUNCE_RX_ACCEPT],
+        kani=FOREIGN + [ANNOUNCE_RX_ACCEPT, INSTANCE_BMCA[0], INSTANCE_BMCA[2], INSTANCE_BMCA[3]],
         assumptions=['whole-history clauses are per-step contracts: ages grow by the BMCA step and messages reaching 4 intervals are purged (expiry); the next sequence id incl. 65535 -> 0 is accepted and the chosen Erbest is put back with its age (steadily announcing master is kept); the temporal conclusions are paper steps',
                      'payload abstraction and 2x2 bound of the table generator (see bounded)'],
     ),
@@ -330,18 +342,18 @@ PROPS = {
     'C08': dict(
         verus=[],
         kani=[RECEIPT_TIMER, APPLY, H(M, 'c10_send_sync'), H(M, 'c10_delay_resp_for_delay_req'), H(S, 'c09_send_e2e_delay_request'),
-              H(Q, 'c05_state_decision_matches_figure_33'), th(H(M, 'c10_follow_up_for_sync_timestamp')), ANNOUNCE_TX0, ANNOUNCE_TX, th(NOT_SLAVE)],
+              H(Q, 'c05_state_decision_matches_figure_33'), th(H(M, 'c10_follow_up_for_sync_timestamp')), ANNOUNCE_TX0, ANNOUNCE_TX, th(NOT_SLAVE), INSTANCE_BMCA[0], INSTANCE_BMCA[1]],
         assumptions=PORT_ASSUME[:1] + ['"at most one slave port" is the paper composition of: S1 only for the port whose Erbest *is* Ebest including the receiving port identity (c05_state_decision...), distinct port identities, and every other decision leaving or not entering Slave (c05_apply...)',
                                        'a filter that has only seen peer-delay measurements not touching the clock is not decided (Kalman float internals)'],
     ),
     'C09': dict(
         verus=['time'],
-        kani=C09_H,
+        kani=C09_H + [SEQ_GEN, START_END],
         assumptions=PORT_ASSUME,
     ),
     'C10': dict(
         verus=['time'],
-        kani=C10_H,
+        kani=C10_H + [START_END],
         assumptions=PORT_ASSUME[:1] + ['"origin + correction = transmit timestamp to 2^-16 ns" is the cross-tool lemma: Kani: frame carries WireTimestamp::from(ts) and correction subnano(ts); Verus: c16_wire_round_trip'],
     ),
     'C11': dict(
@@ -351,7 +363,7 @@ PROPS = {
     ),
     'C12': dict(
         verus=[],
-        kani=[APPLY, RECEIPT_TIMER, H(M, 'c10_send_sync'), H(S, 'c09_send_e2e_delay_request'), H(S, 'c14_send_p2p_delay_request'), ANNOUNCE_RX_ACCEPT, ANNOUNCE_TX0, ANNOUNCE_TX],
+        kani=[APPLY, RECEIPT_TIMER, H(M, 'c10_send_sync'), H(S, 'c09_send_e2e_delay_request'), H(S, 'c14_send_p2p_delay_request'), ANNOUNCE_RX_ACCEPT, ANNOUNCE_TX0, ANNOUNCE_TX, INSTANCE_BMCA[0], INSTANCE_BMCA[2]],
         assumptions=PORT_ASSUME[:1] + ['safety core only: every state-changing operation requests the timers the new state needs (needs(post) minus needs(pre) is a subset of the requested timers), every periodic sender re-arms its own timer, every accepted Announce re-arms the receipt timer; the temporal conclusion (within a bounded number of intervals ... indefinitely) is a paper argument under host obedience and is NOT machine-checked',
                                        'open: recovery from Faulty (extract_measurement -> Listening) requests no timer; it relies on timers armed before the fault (see C14 findings)'],
     ),
@@ -384,7 +396,7 @@ PROPS = {
     ),
     'C17': dict(
         verus=[],
-        kani=INSTANCE + [ANNOUNCE_RX_PARENT, APPLY, H(M, 'c10_send_sync'), H(S, 'c09_send_e2e_delay_request'), RECEIPT_TIMER, ANNOUNCE_TXP, ANNOUNCE_TX1, ANNOUNCE_TX,
+        kani=INSTANCE + [INSTANCE_BMCA[0], ANNOUNCE_LOCKS, ANNOUNCE_RX_PARENT, APPLY, H(M, 'c10_send_sync'), H(S, 'c09_send_e2e_delay_request'), RECEIPT_TIMER, ANNOUNCE_TXP, ANNOUNCE_TX1, ANNOUNCE_TX,
                          th(H(M, 'c10_delay_resp_for_delay_req')), th(H(M, 'c10_pdelay_resp_for_pdelay_req')), th(H(S, 'c14_send_p2p_delay_request')), th(ANNOUNCE_RX_ACCEPT), th(ANNOUNCE_RX_REJECT)] + [th(h) for h in DISPATCH],
         assumptions=PORT_ASSUME[:1] + ['every harness runs over ChkLock, a PtpInstanceStateMutex that asserts acquisition depth 0 on every with_ref/with_mut; a guard cannot outlive a call (closure scoped), so "no operation nests an acquisition, from every valid state and input" is the all-histories statement',
                                        'atomicity of snapshots: each data-set update is one write acquisition (counted), each getter one read acquisition (counted); std::sync::RwLock / RefCell provide the mutual exclusion; no thread interleaving is explored (Kani has no threads)',
